@@ -71,6 +71,8 @@ type c04Extras struct {
 	usp *ngfAPIv1alpha1.UpstreamSettingsPolicy
 	btp *v1alpha3.BackendTLSPolicy
 	cm  *apiv1.ConfigMap
+	// sfLast: every HTTPRoute rule gets, as its LAST filter, an ExtensionRef to a valid SnippetsFilter
+	sfLast bool
 }
 
 func c04BaseExtras() *c04Extras {
@@ -155,6 +157,8 @@ func c04Surround(kind string, c *vsCluster, e *c04Extras) {
 	case "route-other-rule-invalid":
 		c.Routes[0].Rules = append(c.Routes[0].Rules, vsRule{Matches: []vsMatch{{Path: "/inv"}}, Filters: []vsFilter{{Kind: "unsupported"}},
 			Backends: []vsBackend{{Name: "svc-a", Port: 80, Weight: 1}}})
+	case "route-snippetsfilter-last":
+		e.sfLast = true
 	case "policy-other-field-invalid":
 		e.csp.Spec.KeepAlive.Requests = helpers.GetPointer[int32](-1)
 		e.op.Spec.Tracing.Ratio = helpers.GetPointer[int32](1000)
@@ -261,6 +265,18 @@ func c04Run(c *vsCluster, e *c04Extras, post func([]client.Object)) (confs [][2]
 	objs := c.Objects()
 	if post != nil {
 		post(objs)
+	}
+	if e.sfLast {
+		for _, o := range objs {
+			if hr, ok := o.(*gatewayv1.HTTPRoute); ok {
+				for i := range hr.Spec.Rules {
+					hr.Spec.Rules[i].Filters = append(hr.Spec.Rules[i].Filters, gatewayv1.HTTPRouteFilter{Type: gatewayv1.HTTPRouteFilterExtensionRef,
+						ExtensionRef: &gatewayv1.LocalObjectReference{Group: ngfAPIv1alpha1.GroupName, Kind: "SnippetsFilter", Name: "sf"}})
+				}
+			}
+		}
+		objs = append(objs, &ngfAPIv1alpha1.SnippetsFilter{ObjectMeta: metav1.ObjectMeta{Namespace: "default", Name: "sf", Generation: 1},
+			Spec: ngfAPIv1alpha1.SnippetsFilterSpec{Snippets: []ngfAPIv1alpha1.Snippet{{Context: ngfAPIv1alpha1.NginxContextHTTPServerLocation, Value: "add_header X-Sf ok;"}}}})
 	}
 	// GatewayClass with parametersRef -> NginxProxy
 	for _, o := range objs {
@@ -377,7 +393,7 @@ func TestVerifC04(t *testing.T) {
 		case strings.HasPrefix(name, "NginxProxy."):
 			return []string{"valid", "nginxproxy-mode-unset", "nginxproxy-other-field-invalid", "nginxproxy-exporter-interval-unset"}
 		case strings.HasPrefix(name, "HTTPRoute."):
-			return []string{"valid", "route-other-rule-invalid"}
+			return []string{"valid", "route-other-rule-invalid", "route-snippetsfilter-last"}
 		case strings.HasPrefix(name, "ClientSettingsPolicy.") || strings.HasPrefix(name, "ObservabilityPolicy."):
 			return []string{"valid", "policy-other-field-invalid", "nginxproxy-other-field-invalid"}
 		}
